@@ -622,6 +622,10 @@ func (x *c18) runErrors() {
 		{"PAN-OS", `<config><devices><entry name="localhost.localdomain"><vsys><entry name="vsys1"></entry></vsys></entry></devices></config>`,
 			core.Files{Main: `<config><devices><entry name="localhost.localdomain"><vsys><entry name="vsys1"></entry></vsys></entry></devices></config>`,
 				V6: `<config><devices><entry name="other-device"><vsys><entry name="vsys1"><rulebase><security><rules><entry name="v6r1"><action>allow</action><from><member>z1</member></from><to><member>z2</member></to><source><member>any</member></source><destination><member>any</member></destination><service><member>any</member></service><application><member>any</member></application></entry></rules></security></rulebase></entry></vsys></entry></devices></config>`}, "IPv6 file for another device entry"},
+		{"PAN-OS", panEmptyCfg, core.Files{Main: panClashCfg("r1", "10.1.1.10/32", "80", "a1", "tcp 80"), Raw: panClashCfg("raw1", "10.9.9.9/32", "80", "a1", "tcp 80")}, "name clash: raw address with the name of a Netspoc address"},
+		{"PAN-OS", panEmptyCfg, core.Files{Main: panClashCfg("r1", "10.1.1.10/32", "80", "a1", "tcp 80"), Raw: panClashCfg("raw1", "10.1.1.10/32", "81", "a1", "tcp 80")}, "name clash: raw service with the name of a Netspoc service"},
+		{"PAN-OS", panEmptyCfg, core.Files{Main: panClashCfg("r1", "10.1.1.10/32", "80", "a1", "tcp 80"), Raw: panClashCfg("raw1", "10.1.1.10/32", "80", "a2", "tcp 80")}, "name clash: raw address-group with the name of a Netspoc address-group"},
+		{"PAN-OS", panEmptyCfg, core.Files{Main: panClashCfg("r1", "10.1.1.10/32", "80", "a1", "tcp 80"), Raw: panClashCfg("raw1", "10.1.1.10/32", "80", "a1", "udp 53")}, "name clash: raw service-group with the name of a Netspoc service-group"},
 		{"Linux", "", core.Files{Main: "*filter\n:FORWARD DROP\n-A FORWARD -j ACCEPT -s 10.1.1.1\nCOMMIT\n",
 			Raw: "*filter\n:FORWARD DROP\n-A FORWARD -j ACCEPT -s 10.7.7.1\n*filter\n:FORWARD DROP\n-A FORWARD -j ACCEPT -s 10.7.7.2\n"}, "table defined twice in the raw file"},
 		{"NSX", "", core.Files{Main: "", Raw: `{"groups":[{"id":"other-g1","expression":[{"id":"id","resource_type":"IPAddressExpression","ip_addresses":["10.1.1.1"]}]}]}`}, "forbidden group name"},
@@ -862,7 +866,7 @@ func (x *c18) runLegalRaw() {
 	if x.ctx.Shard != 0 {
 		return
 	}
-	panEmpty := `<config><devices><entry name="localhost.localdomain"><vsys><entry name="vsys1"></entry></vsys></entry></devices></config>` + "\n"
+	panEmpty := panEmptyCfg
 	panRule := func(name, svc string) string {
 		return `<entry name="` + name + `"><action>allow</action><from><member>z1</member></from><to><member>z2</member></to><source><member>any</member></source><destination><member>any</member></destination><service><member>` + svc + `</member></service><application><member>any</member></application></entry>`
 	}
@@ -915,3 +919,18 @@ func (x *c18) runLegalRaw() {
 		}
 	}
 }
+
+// panClashCfg: one rule using address-group g0 = {gm} and service-group
+// sg0 = {sm}; addresses a1 = ip, a2 fixed; services "tcp 80" = tcp/port, "udp 53".
+func panClashCfg(rule, ip, port, gm, sm string) string {
+	return `<config><devices><entry name="localhost.localdomain"><vsys><entry name="vsys1"><rulebase><security><rules>` +
+		`<entry name="` + rule + `"><action>allow</action><from><member>z1</member></from><to><member>z2</member></to><source><member>g0</member></source><destination><member>any</member></destination><service><member>sg0</member></service><application><member>any</member></application></entry>` +
+		`</rules></security></rulebase>` +
+		`<address><entry name="a1"><ip-netmask>` + ip + `</ip-netmask></entry><entry name="a2"><ip-netmask>10.1.1.20/32</ip-netmask></entry></address>` +
+		`<address-group><entry name="g0"><static><member>` + gm + `</member></static></entry></address-group>` +
+		`<service><entry name="tcp 80"><protocol><tcp><port>` + port + `</port></tcp></protocol></entry><entry name="udp 53"><protocol><udp><port>53</port></udp></protocol></entry></service>` +
+		`<service-group><entry name="sg0"><members><member>` + sm + `</member></members></entry></service-group>` +
+		`</entry></vsys></entry></devices></config>`
+}
+
+const panEmptyCfg = `<config><devices><entry name="localhost.localdomain"><vsys><entry name="vsys1"></entry></vsys></entry></devices></config>` + "\n"
